@@ -23,13 +23,15 @@ EXTENDS Scopes, Export
 \* TLC orders record fields by first occurrence in the root module: tags first
 FieldOrder == [kind |-> 0, k |-> 0, op |-> 0, mode |-> 0, ok |-> 0, tag |-> 0, id |-> 0, ns |-> 0, s |-> 0,
                key |-> 0, name |-> 0, scope |-> 0, table |-> 0, req |-> 0, here |-> 0, chain |-> 0,
-               def |-> 0, sub |-> 0, props |-> 0, items |-> 0, val |-> 0, v |-> 0, type |-> 0]
+               def |-> 0, dis |-> 0, sub |-> 0, props |-> 0, items |-> 0, val |-> 0, v |-> 0, type |-> 0]
 
 CONSTANTS Shapes,     \* subset of {"flat","nest1","nest1l","nest2","sib","bare","bare2","barel","smap"}
           Wrap1,      \* wrappers of the first placement
           Wrap2,      \* wrappers of the second placement ({} = at most one placement)
           PairShapes, \* shapes that get a second placement
           Reqs,       \* "required" flags of the first placement
+          DisWraps,   \* wrappers whose placements also come disabled
+          DisSet,     \* subset of {"plain", "reason"}
           ExtraNs,    \* namespaces applied although no reference uses them
           InlineK,    \* unrolling depth of Inline
           RawD,       \* nesting depth of the generated inputs (InlineSame)
@@ -54,7 +56,7 @@ Canon == [nsa |-> "T1", nsb |-> "T2", nsc |-> "T3"]
 ExtTargets == {<<"nsa", "X">>, <<"nsa", "B">>, <<"nsb", "X">>}
 
 \* ------------------------------------------------------------------ trees
-NoPlace == [hs |-> "", ho |-> "", w |-> "none", ns |-> "", id |-> "", req |-> FALSE]
+NoPlace == [hs |-> "", ho |-> "", w |-> "none", ns |-> "", id |-> "", req |-> FALSE, dis |-> ""]
 
 Wrapped(w, i, ns, id) ==
     LET r == Ref(RTags[i], ns, id) IN
@@ -68,8 +70,9 @@ Wrapped(w, i, ns, id) ==
 
 PlProps(P, sc, oid) ==
     LET idx == SelectSeq([i \in DOMAIN P |-> i], LAMBDA i : P[i].w # "none" /\ P[i].hs = sc /\ P[i].ho = oid)
-    IN [j \in DOMAIN idx |-> Prop(PNames[idx[j]], P[idx[j]].req,
-                                  Wrapped(P[idx[j]].w, idx[j], P[idx[j]].ns, P[idx[j]].id))]
+    IN [j \in DOMAIN idx |-> Disabled(Prop(PNames[idx[j]], P[idx[j]].req,
+                                           Wrapped(P[idx[j]].w, idx[j], P[idx[j]].ns, P[idx[j]].id)),
+                                      P[idx[j]].dis)]
 
 O(P, sc, oid, tag, fixed) == Obj(oid, tag, <<Marker(tag)>> \o fixed \o PlProps(P, sc, oid))
 
@@ -123,23 +126,25 @@ IDsOf(sc, shape) ==
       [] sc = "s2"  -> {"A", "C"}
 Targets(sc, shape) == {<<"", id>> : id \in IDsOf(sc, shape)} \cup ExtTargets
 Bare == {"bare", "bare2", "barel"}
-Places(shape, W, Q) ==
+Places(shape, W, Q, DW) ==
     IF shape = "smap"
-    THEN {[hs |-> "top", ho |-> "Settings", w |-> w, ns |-> tg[1], id |-> tg[2], req |-> FALSE] :
+    THEN {[hs |-> "top", ho |-> "Settings", w |-> w, ns |-> tg[1], id |-> tg[2], req |-> FALSE, dis |-> ""] :
              w \in {"direct", "inobj"}, tg \in {<<"", "Engine">>, <<"nsc", "Settings">>, <<"nsc", "Engine">>}}
     ELSE
     IF shape \in Bare   \* the marker-less objects are fixed; two placements next to them are enough
-    THEN {[hs |-> "top", ho |-> "B", w |-> "direct", ns |-> tg[1], id |-> tg[2], req |-> FALSE] :
+    THEN {[hs |-> "top", ho |-> "B", w |-> "direct", ns |-> tg[1], id |-> tg[2], req |-> FALSE, dis |-> ""] :
              tg \in {<<"", "A">>, <<"nsa", "X">>}}
     ELSE
-    UNION {{[hs |-> h[1], ho |-> h[2], w |-> w, ns |-> tg[1], id |-> tg[2], req |-> q] :
-               w \in W, tg \in Targets(h[1], shape), q \in Q} : h \in Hosts(shape)}
+    \* the placement's property may be DISABLED (with / without a reason) for the wrappers in DisWraps
+    UNION {{[hs |-> h[1], ho |-> h[2], w |-> wd[1], ns |-> tg[1], id |-> tg[2], req |-> q, dis |-> wd[2]] :
+               wd \in {<<w, "">> : w \in W} \cup {<<w, d>> : w \in W \cap DW, d \in DisSet},
+               tg \in Targets(h[1], shape), q \in Q} : h \in Hosts(shape)}
 
 \* ------------------------------------------------------------------ behaviours
 AppliedNs(P) == ({P[i].ns : i \in DOMAIN P} \ {""}) \cup ExtraNs
 Init ==
-    \E shape \in Shapes : \E p1 \in Places(shape, Wrap1, Reqs) :
-    \E p2 \in (IF shape \in PairShapes THEN Places(shape, Wrap2, {FALSE}) ELSE {}) \cup {NoPlace} :
+    \E shape \in Shapes : \E p1 \in Places(shape, Wrap1, Reqs, DisWraps) :
+    \E p2 \in (IF shape \in PairShapes THEN Places(shape, Wrap2, {FALSE}, {}) ELSE {}) \cup {NoPlace} :
         /\ params = [shape |-> shape, P |-> <<p1, p2>>]
         /\ InitState(TreeOf(shape, <<p1, p2>>), ExtMC, AppliedNs(<<p1, p2>>))
 
